@@ -69,6 +69,7 @@ type cmpUnit struct {
 	CallGuards  string    // operand-type guards that hold where the unit is called
 	Call        *ssa.Call // the call in the parent unit
 	Delivered   bool      // the answer flows into the caller's answer
+	Negated     bool      // ... negated on the way (an odd number of !)
 }
 
 // comparisonUnits: the handler and, recursively, the helpers that receive both operands.
@@ -112,6 +113,9 @@ func (w *World) comparisonUnits(h *ssa.Function, left, right ssa.Value) []*cmpUn
 					}
 				}
 			}
+			if ridx < 0 && res.Len() == 1 && okidx == 0 {
+				ridx, okidx = 0, -1 // a helper that answers with a plain bool
+			}
 			if ridx < 0 {
 				return
 			}
@@ -133,8 +137,8 @@ func (w *World) comparisonUnits(h *ssa.Function, left, right ssa.Value) []*cmpUn
 			}
 			if start != nil {
 				seenV := map[ssa.Value]bool{}
-				var flows func(v ssa.Value, d int)
-				flows = func(v ssa.Value, d int) {
+				var flows func(v ssa.Value, d int, neg bool)
+				flows = func(v ssa.Value, d int, neg bool) {
 					if seenV[v] || d > 6 {
 						return
 					}
@@ -142,27 +146,33 @@ func (w *World) comparisonUnits(h *ssa.Function, left, right ssa.Value) []*cmpUn
 					for _, rr := range referrers(v) {
 						switch x := rr.(type) {
 						case *ssa.Phi:
-							flows(x, d+1)
+							flows(x, d+1, neg)
 						case *ssa.ChangeType:
-							flows(x, d+1)
+							flows(x, d+1, neg)
 						case *ssa.MakeInterface:
-							flows(x, d+1)
+							flows(x, d+1, neg)
+						case *ssa.UnOp:
+							if x.Op == token.NOT {
+								flows(x, d+1, !neg) // the caller answers with the negation of the helper's answer
+							}
 						case *ssa.Store:
 							if fa, ok := x.Addr.(*ssa.FieldAddr); ok && u.ResultIdx < 0 && x.Val == v {
 								if pt, ok := fa.X.Type().Underlying().(*types.Pointer); ok {
 									if st, ok := pt.Elem().Underlying().(*types.Struct); ok && fa.Field < st.NumFields() && st.Field(fa.Field).Name() != "" {
 										nu.Delivered = true
+										nu.Negated = u.Negated != neg
 									}
 								}
 							}
 						case *ssa.Return:
 							if u.ResultIdx >= 0 && u.ResultIdx < len(x.Results) && x.Results[u.ResultIdx] == v {
 								nu.Delivered = true
+								nu.Negated = u.Negated != neg
 							}
 						}
 					}
 				}
-				flows(start, 0)
+				flows(start, 0, false)
 			}
 			units = append(units, nu)
 		})
@@ -176,6 +186,21 @@ func (w *World) allOperandComparisons(h *ssa.Function, left, right ssa.Value) []
 	for _, u := range w.comparisonUnits(h, left, right) {
 		for _, c := range w.operandComparisons(u.Fn, u.Left, u.Right) {
 			c.Unit = u
+			if u.Negated {
+				// !(a == b) is a != b for every pair of values (NaN included); the negation of an ordering test
+				// is not the complementary ordering (NaN), and the negation of "some node satisfies" is not
+				// "some node satisfies the complement"
+				switch {
+				case c.InLoop:
+					c.Op = token.ILLEGAL
+				case c.Op == token.EQL:
+					c.Op = token.NEQ
+				case c.Op == token.NEQ:
+					c.Op = token.EQL
+				default:
+					c.Op = token.ILLEGAL
+				}
+			}
 			if u.CallGuards != "" {
 				c.Guards = strings.TrimSpace(c.Guards + " " + u.CallGuards)
 				fs := strings.Fields(c.Guards)
@@ -654,30 +679,77 @@ func (w *World) existentialShape(c operandCmp, r *Roles) (bool, string) {
 // scalarPriority checks the fallback chain of an equality handler.
 func (w *World) scalarPriority(P, nt string, h *ssa.Function, cmps []operandCmp, left, right ssa.Value) {
 	for _, c := range cmps {
-		// fallback comparisons: both operands are direct method calls on the operand interface values
-		rx, mx := directMethod(c.X)
-		ry, my := directMethod(c.Y)
+		// fallback comparisons: both sides are the scalar value of a whole operand - a conversion method called on
+		// the operand interface value, or the operand asserted to the scalar type itself
+		ul, ur := left, right
+		if c.Unit != nil {
+			ul, ur = c.Unit.Left, c.Unit.Right
+		}
+		rx, mx := scalarOfOperand(c.X)
+		ry, my := scalarOfOperand(c.Y)
 		if mx == "" || mx != my {
 			continue
 		}
-		if !((rx == left && ry == right) || (rx == right && ry == left)) {
+		if !((rx == ul && ry == ur) || (rx == ur && ry == ul)) {
 			continue
 		}
 		g := " " + c.Guards + " "
 		has := func(s string) bool { return strings.Contains(g, " "+s+" ") }
+		// what the guards say an operand is not: a failed assertion, or a successful assertion to another type
+		not := func(side, typ string) bool {
+			if has(side + ":!" + typ) {
+				return true
+			}
+			for _, other := range []string{"Bool", "Number", "String", "NodeSet"} {
+				if other != typ && has(side+":"+other) {
+					return true
+				}
+			}
+			return false
+		}
 		switch mx {
 		case "Bool":
 			// reached only if some operand is Bool: i.e. NOT both (L:!Bool and R:!Bool)
-			ok := !(has("L:!Bool") && has("R:!Bool"))
+			ok := !(not("L", "Bool") && not("R", "Bool"))
 			w.check(P, "R05.4", nt+": boolean fallback comparison", c.In.Pos(), ok, "guards: "+c.Guards)
 		case "Number":
-			ok := has("L:!Bool") && has("R:!Bool") && !(has("L:!Number") && has("R:!Number"))
+			ok := not("L", "Bool") && not("R", "Bool") && !(not("L", "Number") && not("R", "Number"))
 			w.check(P, "R05.4", nt+": number fallback comparison", c.In.Pos(), ok, "must be reached only when neither operand is a boolean and one is a number; guards: "+c.Guards)
 		case "String":
-			ok := has("L:!Bool") && has("R:!Bool") && has("L:!Number") && has("R:!Number")
+			ok := not("L", "Bool") && not("R", "Bool") && not("L", "Number") && not("R", "Number")
 			w.check(P, "R05.4", nt+": string fallback comparison", c.In.Pos(), ok, "must be reached only when neither operand is a boolean or a number; guards: "+c.Guards)
 		}
 	}
+}
+
+// scalarOfOperand: v is operand.Bool()/Number()/String(), or the operand itself asserted to Bool/Number/String
+// (possibly converted to the underlying Go type). Returns the operand and the scalar kind.
+func scalarOfOperand(v ssa.Value) (ssa.Value, string) {
+	if r, m := directMethod(v); m == "Bool" || m == "Number" || m == "String" {
+		return r, m
+	}
+	x := stripConvAll(v)
+	var ta *ssa.TypeAssert
+	switch y := x.(type) {
+	case *ssa.TypeAssert:
+		ta = y
+	case *ssa.Extract:
+		if t, ok := y.Tuple.(*ssa.TypeAssert); ok && y.Index == 0 {
+			ta = t
+		}
+	}
+	if ta == nil {
+		return nil, ""
+	}
+	n, ok := types.Unalias(ta.AssertedType).(*types.Named)
+	if !ok {
+		return nil, ""
+	}
+	switch n.Obj().Name() {
+	case "Bool", "Number", "String":
+		return ta.X, n.Obj().Name()
+	}
+	return nil, ""
 }
 
 func directMethod(v ssa.Value) (ssa.Value, string) {
